@@ -122,6 +122,6 @@ def run(ctx):
     sub = ctx.__class__('C02', ctx.tier, ctx.p, ctx.seed)
     C13.run(sub)
     for o in sub.obligations:
-        if o.rule == 'C13.NOREAD':
-            o.rule = 'C02.NOREAD(=C13)'
+        if o.rule in ('C13.NOREAD', 'C13.INPLACE'):
+            o.rule = 'C02.%s(=C13)' % o.rule.split('.')[1]
             ctx.obligations.append(o)
